@@ -15,8 +15,10 @@ the business of the lexer / parser half (Props/C16.lean, C02 layer); here they a
  * `StmtPositions reg f l c` — some statement of a loaded (sub)module starts at `f:l:c`.
  * `Positioned e`         — the error message starts with a position (`file:line:col:` or `line l:c:`).
  * `PosOK reg e`          — a positioned error names the start of a statement of a loaded (sub)module.
- * `PlugPositionsOK reg plug` — the layers plugged into `processAll` (type, identity and typedef
-   resolution) keep that discipline when they are asked about statements of loaded modules.
+ * `PosAt K reg e`, `Names` — the finer form: the statement is the one the error class names.
+ * `PlugPositionsOK reg plug` / `PlugPositionsAt K reg plug` — the layers plugged into `processAll`
+   (type, identity and typedef resolution) keep that discipline when they are asked about
+   statements of loaded modules.
  * `Ast.Within`, `Ast.Blames` — the same for the AST builder, whose statements carry no file name
    (one text is built at a time): which statement a positioned builder error is about.
 -/
@@ -45,17 +47,48 @@ instance (e : Err) : Decidable (Positioned e) := by unfold Positioned; infer_ins
 /-- A positioned error names the start of a statement of a loaded (sub)module. -/
 def PosOK (reg : Registry) (e : Err) : Prop := Positioned e → StmtPositions reg e.file e.line e.col
 
-/-- The error is exactly "class `cls` at the start of statement `s`". -/
+/-- The error stands at the start of statement `s`. -/
 def At (e : Err) (s : Stmt) : Prop := e.file = s.file ∧ e.line = s.line ∧ e.col = s.col
 
-/-- The plugged layers keep the discipline: asked about a `type` statement `t` (with ancestors
+/-- The finer form: a positioned error stands at the start of a statement `s` of a loaded
+(sub)module that is related to the error's class by `K` ("an error of this class names that kind
+of statement"). -/
+def PosAt (K : String → Stmt → Prop) (reg : Registry) (e : Err) : Prop :=
+  Positioned e → ∃ s, StmtOf reg s ∧ At e s ∧ K e.cls s
+
+/-- Which statement the error classes of the entry layer and of the type layer name:
+ * an unknown grouping: the `uses` statement;
+ * a bad `ordered-by`, `max-elements`, `min-elements` value: that substatement;
+ * a bad `config` / `mandatory` value: the statement that holds it;
+ * an unknown type name or prefix: the `type` statement;
+ * a bad `range` / `length` restriction: the `range` / `length` statement.
+Other classes (duplicate keys and nodes, augment and deviation failures, cycles, …) are
+unconstrained here: they name the node, the grouping, the augment or the deviating module. -/
+def Names (cls : String) (s : Stmt) : Prop :=
+  (cls = "unknown-group" → s.kw = "uses") ∧
+  (cls = "bad-ordered-by" → s.kw = "ordered-by") ∧
+  (cls = "bad-max-elements" → s.kw = "max-elements") ∧
+  (cls = "bad-min-elements" → s.kw = "min-elements") ∧
+  (cls = "bad-tristate" → ∃ v ∈ s.subs, (v.kw = "config" ∨ v.kw = "mandatory") ∧ v.arg ≠ "true" ∧ v.arg ≠ "false") ∧
+  (cls = "unknown-type" → s.kw = "type") ∧
+  (cls = "unknown-prefix" → s.kw = "type") ∧
+  (cls = "bad-range" → s.kw = "range") ∧
+  (cls = "bad-length" → s.kw = "length") ∧
+  (cls = "negative-length" → s.kw = "length")
+
+/-- The plugged layers keep the discipline `K`: asked about a `type` statement `t` (with ancestors
 `scope`) of a loaded module `root`, the type resolver only reports positions of statements of
-loaded modules; so do identity resolution and typedef resolution over the whole loaded set. -/
-structure PlugPositionsOK (reg : Registry) (plug : Plug) : Prop where
-  resolve : ∀ root scope t, root ∈ reg.mods → Within t root.stmt → (∀ s ∈ scope, Within s root.stmt) →
-    ∀ e ∈ (plug.tres.resolve reg root scope t).2, PosOK reg e
-  identity : ∀ e ∈ plug.identityErrs reg, PosOK reg e
-  typedefs : ∀ e ∈ plug.typedefErrs reg, PosOK reg e
+loaded modules (related to the class by `K`); so do identity resolution and typedef resolution
+over the whole loaded set. -/
+structure PlugPositionsAt (K : String → Stmt → Prop) (reg : Registry) (plug : Plug) : Prop where
+  resolve : ∀ root scope t, root ∈ reg.mods → Within t root.stmt → t.kw = "type" →
+    (∀ s ∈ scope, Within s root.stmt) →
+    ∀ e ∈ (plug.tres.resolve reg root scope t).2, PosAt K reg e
+  identity : ∀ e ∈ plug.identityErrs reg, PosAt K reg e
+  typedefs : ∀ e ∈ plug.typedefErrs reg, PosAt K reg e
+
+/-- The coarse form of the assumption: positions of the plugged layers are statement starts. -/
+def PlugPositionsOK (reg : Registry) (plug : Plug) : Prop := PlugPositionsAt (fun _ _ => True) reg plug
 
 /-! ### executable form: the list of all statement starts of the loaded set -/
 
